@@ -273,6 +273,7 @@ fn run_case(ctx: &Ctx, w: &World, idx: u64, c: &Case) -> CaseOut {
                     let dt = ((guard::thread_cpu_s() - t0) * 1e6) as u64;
                     if let Some(sh) = alloc::shared() {
                         sh.max_valid_cpu_us.fetch_max(dt, Relaxed);
+                        sh.max_valid_live_heap.fetch_max(alloc::peak_live(), Relaxed);
                         if let Some(ki) = corpus::Kind::ALL.iter().position(|x| *x == it.item.kind) {
                             sh.max_valid_by_kind[ki.min(alloc::KINDS - 1)].fetch_max(dt, Relaxed);
                         }
@@ -492,10 +493,24 @@ fn fold_batch(o: &mut CaseOut, prefix: &str, slot_names: &[String], b: forkrun::
     o.count("allocations_observed_ge_observe_threshold", b.observed_big);
     o.count("allocations_refused_resource_limit", resource);
     o.count("allocations_refused_growth_of_large_buffer", b.growth_refused);
+    o.count("allocations_refused_heap_held_by_one_probe_above_cap", b.live_cap_refused);
+    o.max("max_probe_live_heap_bytes", b.max_probe_live_heap);
+    o.max("max_valid_case_live_heap_bytes", b.max_valid_live_heap);
     o.max("max_allocation_request_observed", b.observed_max);
     o.max("max_probe_cpu_us", b.max_probe_cpu_us);
     o.max("max_valid_case_cpu_us", b.max_valid_cpu_us);
     o.max("max_valid_debug_call_us", b.max_valid_debug_call_us);
+    if !b.slow.is_empty() {
+        // appended by every case process, read back at the end of the run (`slowest_probes` in the evidence)
+        if let Some(path) = SLOW_LOG.get() {
+            if let Ok(mut f) = std::fs::OpenOptions::new().create(true).append(true).open(path) {
+                use std::io::Write;
+                for (us, d) in &b.slow {
+                    let _ = f.write_all(format!("{}\n", json!([us, d.chars().take(400).collect::<String>()])).as_bytes());
+                }
+            }
+        }
+    }
     for (sig, desc, wit) in b.violations {
         o.fps.push(fnv1a(sig.as_bytes()));
         o.violation_with(sig, desc, wit);
@@ -507,6 +522,8 @@ fn fold_batch(o: &mut CaseOut, prefix: &str, slot_names: &[String], b: forkrun::
         o.sample = Some(json!({"resource_limited_example": r}));
     }
 }
+
+static SLOW_LOG: std::sync::OnceLock<std::path::PathBuf> = std::sync::OnceLock::new();
 
 fn main() {
     // the multithreaded BGZF reader uses the global rayon pool, created lazily in each batch process
@@ -520,7 +537,9 @@ fn main() {
     if std::env::var("VMON_CHILD").is_err() && ctx.replay.is_none() {
         // the parent of a run starts with an empty hang ledger
         let _ = std::fs::remove_file(ctx.work.join("hang-ledger.bin"));
+        let _ = std::fs::remove_file(ctx.work.join("slow-probes.log"));
     }
+    let _ = SLOW_LOG.set(ctx.work.join("slow-probes.log"));
     if ctx.param("mode").is_none() {
         ledger::open(&ctx.work);
     }
@@ -533,6 +552,9 @@ fn main() {
     if let Some(v) = ctx.param("alloc_refuse_mib").and_then(|s| s.parse::<usize>().ok()) {
         alloc::REFUSE.store(v << 20, Relaxed);
     }
+    if let Some(v) = ctx.param("live_heap_mib").and_then(|s| s.parse::<usize>().ok()) {
+        alloc::LIVE_CAP.store(v << 20, Relaxed);
+    }
     let mut rep = Report::new(
         "probe = one input handed to one reader API (every corpus transcript variant with the deep accessor walk, plus Debug formatting of lazily read records), \
          codec / integer decoder, or index query. Deterministic part (independent of VERIF_SEED): every stored witness; for every file of the fixed corpus \
@@ -544,9 +566,10 @@ fn main() {
          distinct violation signatures; non-trivial = all. A probe that ends in a refused allocation is not an evaluation.",
     );
     rep.assumptions.push(format!(
-        "no expectation on Ok vs Err; a single allocation request >= {} MiB, or the growth of a buffer that already holds >= {} MiB, is refused and counted as a resource limit (inconclusive, never pass or fail: the property does not bound memory); hang = a probe that exceeds its CPU budget (ITIMER_PROF, user+system), budgets are checked against 200x the slowest valid input of the same run",
+        "no expectation on Ok vs Err; a single allocation request >= {} MiB, the growth of a buffer that already holds >= {} MiB, or any request while the probe already holds {} MiB of heap (blocks of any size, allocated minus freed since the probe started), is refused and counted as a resource limit (inconclusive, never pass or fail: the property does not bound memory, and the CPU time that touching gigabytes costs depends on the memory the machine has free); hang = a probe that exceeds its CPU budget (ITIMER_PROF, user+system), budgets are checked against 200x the slowest valid input of the same run, the heap cap against 16x the largest heap a valid input held",
         alloc::REFUSE.load(Relaxed) >> 20,
-        alloc::RUNAWAY_OLD.load(Relaxed) >> 20
+        alloc::RUNAWAY_OLD.load(Relaxed) >> 20,
+        alloc::LIVE_CAP.load(Relaxed) >> 20
     ));
     rep.assumptions.push("panics raised inside harness code by a value a noodles accessor returned (e.g. collect() on an iterator whose size_hint is absurd) are attributed to the accessor".into());
     if ctx.param("mode") == Some("genfixtures") {
@@ -564,6 +587,53 @@ fn main() {
                 None => println!("{name}: the CRAM writer rejected the model"),
             }
         }
+        std::process::exit(0);
+    }
+    if ctx.param("mode") == Some("codec-scan") {
+        // diagnosis: the seeded codec probes `from..from+n` of this seed, one line each (index, CPU time, outcome,
+        // description), each in its own forked process under the run's allocation monitor; `codec=` filters,
+        // `min_ms=` prints only probes at least that slow, `dump=<dir>` stores the bytes of the printed ones
+        let from: u64 = ctx.param("from").and_then(|s| s.parse().ok()).unwrap_or(0);
+        let n: u64 = ctx.param("n").and_then(|s| s.parse().ok()).unwrap_or(3000);
+        let min_ms: f64 = ctx.param("min_ms").and_then(|s| s.parse().ok()).unwrap_or(0.0);
+        let budget: f64 = ctx.param("cpu_budget_s").and_then(|s| s.parse().ok()).unwrap_or(30.0);
+        let limits = Limits { cpu_budget_s: budget, short_budget_s: 3.0, rlimit_as: 6144 << 20 };
+        let errfile = ctx.work.join(format!("scan-{}.stderr", std::process::id()));
+        for m in from..from + n {
+            let mut rng = Rng::new(ctx.seed, STREAM_CODEC, m);
+            let p = codecs::seeded_probe(&mut rng);
+            if ctx.param("codec").map(|c| c != codecs::CODECS[p.codec]).unwrap_or(false) {
+                continue;
+            }
+            let run_one = |_k: usize| -> ProbeOut {
+                let _armed = alloc::Armed::new();
+                match guard::catch(|| codecs::decode(p.codec, &p.bytes, p.size)) {
+                    Ok(Ok(_)) => ProbeOut { slot: 0, oc: forkrun::OC_END, violation: None },
+                    Ok(Err(_)) => ProbeOut { slot: 0, oc: forkrun::OC_ERR_OTHER, violation: None },
+                    Err(pi) => ProbeOut { slot: 0, oc: forkrun::OC_PANIC, violation: Some((format!("panic:{}", pi.sig), String::new(), Value::Null)) },
+                }
+            };
+            let describe = |_k: usize| (0usize, format!("codec:{}", codecs::CODECS[p.codec]), p.desc.clone(), Value::Null);
+            let wall = std::time::Instant::now();
+            let b = forkrun::run_batch(1, &limits, &errfile, &run_one, &describe);
+            let wall_ms = wall.elapsed().as_secs_f64() * 1e3;
+            let ms = b.max_probe_cpu_us as f64 / 1e3;
+            if ms.max(wall_ms) < min_ms {
+                continue;
+            }
+            let oc = if let Some((sig, _, _)) = b.violations.first() {
+                sig.clone()
+            } else if let Some(r) = b.resource_limited.first() {
+                format!("resource-limit ({})", r.rsplit(": ").next().unwrap_or(""))
+            } else {
+                OC_NAMES[(0..OC_NAMES.len()).find(|&j| b.matrix[0][j] > 0).unwrap_or(forkrun::OC_ERR_OTHER)].to_string()
+            };
+            println!("{m}\tcpu {ms:.3} ms\twall {wall_ms:.1} ms\t{} B\tfnv={:016x}\t{oc}\t{}", p.bytes.len(), fnv1a(&p.bytes), p.desc);
+            if let Some(d) = ctx.param("dump") {
+                let _ = std::fs::write(std::path::Path::new(d).join(format!("codec-{m}.bin")), &p.bytes);
+            }
+        }
+        let _ = std::fs::remove_file(&errfile);
         std::process::exit(0);
     }
     let w = World::build(&ctx);
@@ -644,7 +714,25 @@ fn main() {
     rep.extra.insert("cpu_budget_over_slowest_valid_case".into(), json!(if max_valid_ms > 0.0 { budget * 1000.0 / max_valid_ms } else { 0.0 }));
     rep.extra.insert("max_valid_debug_call_ms".into(), json!(max_dbg_ms));
     rep.extra.insert("debug_call_budget_s".into(), json!(w.debug_budget_s));
+    {
+        // probes that returned after at least 1/100 of the CPU budget, slowest first
+        let mut slow: Vec<(u64, String)> = std::fs::read_to_string(ctx.work.join("slow-probes.log"))
+            .unwrap_or_default()
+            .lines()
+            .filter_map(|l| serde_json::from_str::<Value>(l).ok())
+            .map(|v| (v[0].as_u64().unwrap_or(0), v[1].as_str().unwrap_or("").to_string()))
+            .collect();
+        slow.sort_by(|a, b| b.0.cmp(&a.0));
+        rep.extra.insert("probes_returned_after_a_100th_of_the_cpu_budget".into(), json!(slow.len()));
+        rep.extra.insert("slowest_probes".into(), json!(slow.iter().take(5).map(|(us, d)| json!({"cpu_ms": *us as f64 / 1000.0, "probe": d})).collect::<Vec<_>>()));
+    }
+    let max_valid_heap = rep.counters.get("max_valid_case_live_heap_bytes").copied().unwrap_or(0);
+    rep.extra.insert("live_heap_cap_per_probe_bytes".into(), json!(alloc::LIVE_CAP.load(Relaxed)));
+    rep.extra.insert("live_heap_cap_over_largest_valid_case".into(), json!(if max_valid_heap > 0 { alloc::LIVE_CAP.load(Relaxed) as f64 / max_valid_heap as f64 } else { 0.0 }));
     if ctx.replay.is_none() {
+        if (alloc::LIVE_CAP.load(Relaxed) as u64) < 16 * max_valid_heap {
+            rep.floors_unmet.push(format!("heap cap per probe {} MiB is less than 16x the largest heap a valid input held ({max_valid_heap} bytes)", alloc::LIVE_CAP.load(Relaxed) >> 20));
+        }
         if max_valid_ms > 0.0 && budget * 1000.0 < 200.0 * max_valid_ms {
             rep.floors_unmet.push(format!("CPU budget {budget} s is less than 200x the slowest valid case ({max_valid_ms:.1} ms)"));
         }
@@ -679,9 +767,10 @@ fn main() {
         let refused = rep.counters.get("allocations_refused_resource_limit").copied().unwrap_or(0);
         if refused > 0 {
             rep.inconclusive.push(format!(
-                "{refused} probes ended in a refused allocation (single request >= {} MiB, growth of a buffer >= {} MiB, or RLIMIT_AS): resource limit, not counted as evaluations",
+                "{refused} probes ended in a refused allocation (single request >= {} MiB, growth of a buffer >= {} MiB, more than {} MiB of heap held by one probe, or RLIMIT_AS): resource limit, not counted as evaluations",
                 alloc::REFUSE.load(Relaxed) >> 20,
-                alloc::RUNAWAY_OLD.load(Relaxed) >> 20
+                alloc::RUNAWAY_OLD.load(Relaxed) >> 20,
+                alloc::LIVE_CAP.load(Relaxed) >> 20
             ));
         }
     }
